@@ -3,7 +3,7 @@
    transcribed at the grain of its IPAM-client calls, on LOGICAL time, together with the environment of
    module GC.  One sync is  ISyncBegin (checkAllocations) ; IGc (garbageCollectKnownLeaks) ;
    IBlock* (releaseUnusedBlocks, one emptyBlocks entry per step, any order) ; INodes (releaseNodes) ;
-   ISyncEnd.  Map-iteration order of the real code is nondeterminism here.
+   ISyncEnd.  Map-iteration order of the real code is nondeterminism here (releaseUnusedBlocks).
 
    Time: `now` is always 0 and a sleep shifts every stored instant into the past (saturating at -Cap),
    so that the state space is finite; G = 1, short sleep = 3, GV = 9, long sleep = 27.
@@ -168,29 +168,23 @@ ISyncBegin(full, fk) ==
     /\ pc' = "gc" /\ todo' = {}
     /\ UNCHANGED <<nodeMap, tracker>>
 
-\* ---- garbageCollectKnownLeaks: walk the confirmedLeaks index in some order ----------------------------------
-\* st = [ast, leaks, opts]
-RECURSIVE GcWalk(_, _, _)
-GcWalk(order, i, st) ==
-    IF i > Len(order) THEN st
-    ELSE LET id == order[i]
-             a == AllocOf(id)
-             o == st.ast[id]
-             live == IF o.knode = "" THEN pcache ELSE pods          \* prefer the cache when the node is gone
-             mates == { m \in DOMAIN st.ast : m.handle = id.handle }
-         IN IF Valid(a, o.knode, live)
-            THEN GcWalk(order, i + 1, [st EXCEPT !.leaks = @ \ {id},
-                                                 !.ast[id] = [o EXCEPT !.leakedAt = NoTime, !.conf = FALSE]])
-            ELSE IF \E m \in mates : ~st.ast[m].conf
-            THEN GcWalk(order, i + 1, st)
-            ELSE GcWalk(order, i + 1, [st EXCEPT !.opts = @ \cup {[ip |-> a.ip, handle |-> a.handle, seq |-> o.seq]}])
-Orders(S) == { f \in [1..Cardinality(S) -> S] : \A i, j \in 1..Cardinality(S) : i # j => f[i] # f[j] }
-GcResult(order) == GcWalk(order, 1, [ast |-> ast, leaks |-> leaks, opts |-> {}])
+\* ---- garbageCollectKnownLeaks ---------------------------------------------------------------------------------
+\* Two passes (this is the repaired order, hooks/fix-C23-handle-all-or-none.patch): first the final re-validation
+\* of every entry of the confirmedLeaks index (cache when the node is gone, live API otherwise; a valid one is
+\* resurrected and loses its confirmed flag), then the all-or-none handle check on the settled flags.  The
+\* original code interleaved both in map-iteration order, which made the handle check order-dependent.
+GcResult ==
+    LET FinalValid(id) == LET o == ast[id] IN Valid(AllocOf(id), o.knode, IF o.knode = "" THEN pcache ELSE pods)
+        res == { id \in leaks : FinalValid(id) }
+        ast1 == [id \in DOMAIN ast |-> IF id \in res THEN [ast[id] EXCEPT !.leakedAt = NoTime, !.conf = FALSE] ELSE ast[id]]
+        rest == leaks \ res
+        ok == { id \in rest : \A m \in DOMAIN ast1 : m.handle = id.handle => ast1[m].conf }
+    IN [ast |-> ast1, leaks |-> rest,
+        opts |-> { [ip |-> id.ip, handle |-> id.handle, seq |-> ast1[id].seq] : id \in ok }]
 
 IGc ==
     /\ pc = "gc"
-    /\ \E order \in Orders(leaks) :
-         LET r == GcResult(order)
+    /\   LET r == GcResult
              fail == failK = "ips"
              rel == Released(r.opts, fail)
              relIds == { [handle |-> o.handle, ip |-> o.ip] : o \in rel }
@@ -272,8 +266,7 @@ INext ==
 
 \* ---- what TLC checks ---------------------------------------------------------------------------------------
 CallsOK ==
-    /\ pc = "gc" => \A order \in Orders(leaks) :
-                       LET r == GcResult(order) IN r.opts # {} => ReleaseIPsOK(r.opts, 0)
+    /\ pc = "gc" => (GcResult.opts # {} => ReleaseIPsOK(GcResult.opts, 0))
     /\ pc = "blocks" => \A b \in todo : WouldRelease(b) => ReleaseBlockOK(b, seen[b].aff, TRUE, 0)
     /\ pc = "nodes" => \A n \in toRel : ReleaseHostOK(n, TRUE)
 Live == pc = "idle" => FinalOK
